@@ -11,6 +11,7 @@ pub mod c01;
 pub mod life;
 pub mod c03;
 pub mod c07;
+pub mod c08;
 pub mod c09;
 pub mod c10;
 pub mod c11;
